@@ -293,28 +293,57 @@ section Paths
 theorem C03_sheet_paths (t : Text) (h : targetOk t = true) :
     joinPaths "xl".toList (stripXl t) = resolveTargetL "xl/workbook.xml".toList t := joinPaths_resolve t h
 
-/-- … composed with the relationship look-up of `C03_sheet_list`: the sheet's part on both sides -/
-theorem C03_sheet_part (rs : List RelR) (srels : List Rel) (hag : RelsAgree rs srels) (s : SheetR)
-    (hok : ∀ r, rs.find? (·.id = s.rid) = some r → targetOk r.target = true) :
+/-- … composed with the relationship look-up of `C03_sheet_list`, for ANY relationship list (ids unique or not): the
+    library reads the sheet from the part of the LAST relationship with the sheet's `r:id` (reader/xlsx.rs: the loop reads
+    every match and overwrites; model `sheetRel`), i.e. from the part the decoder's path rule gives for the LAST of the
+    decoder's relationships with that Id.  (The decoder itself takes the FIRST and reports a duplicated Id as a
+    diagnostic: OPC Part 2 §9.3.2.2 forbids it.) -/
+theorem C03_sheet_part_last (rs : List RelR) (srels : List Rel) (hag : RelsAgree rs srels) (s : SheetR)
+    (hok : ∀ r, sheetRel rs s = some r → targetOk r.target = true) :
     (sheetPart rs s).map str =
-      (srels.find? (fun r => r.id = str s.rid)).map (fun r => resolveTarget "xl/workbook.xml" r.target) := by
-  have hf := find_rel rs srels s.rid hag
+      ((srels.filter (fun r => r.id = str s.rid)).getLast?).map (fun r => resolveTarget "xl/workbook.xml" r.target) := by
+  have hf := congrArg List.getLast? (filter_rel rs srels s.rid hag)
+  simp only [List.getLast?_map] at hf
   unfold sheetPart
-  cases hr : rs.find? (·.id = s.rid) with
+  unfold sheetRel at hok ⊢
+  cases hr : (rs.filter (·.id = s.rid)).getLast? with
   | none =>
     rw [hr] at hf
-    cases hs : srels.find? (fun r => r.id = str s.rid) with
+    cases hs : (srels.filter (fun r => r.id = str s.rid)).getLast? with
     | none => rfl
     | some x => rw [hs] at hf; simp at hf
   | some r =>
     rw [hr] at hf
-    cases hs : srels.find? (fun r => r.id = str s.rid) with
+    cases hs : (srels.filter (fun r => r.id = str s.rid)).getLast? with
     | none => rw [hs] at hf; simp at hf
     | some x =>
       rw [hs] at hf
       simp only [Option.map_some, Option.some.injEq] at hf ⊢
       rw [C03_sheet_paths r.target (hok r hr), hf]
       simp [resolveTarget, str]
+
+/-- … and when the sheet's `r:id` names AT MOST ONE relationship (what OPC requires) that is the relationship the decoder
+    selects (the first): the sheet's part on both sides -/
+theorem C03_sheet_part (rs : List RelR) (srels : List Rel) (hag : RelsAgree rs srels) (s : SheetR)
+    (huniq : (rs.filter (·.id = s.rid)).length ≤ 1)
+    (hok : ∀ r, rs.find? (·.id = s.rid) = some r → targetOk r.target = true) :
+    (sheetPart rs s).map str =
+      (srels.find? (fun r => r.id = str s.rid)).map (fun r => resolveTarget "xl/workbook.xml" r.target) := by
+  have hlen : (srels.filter (fun r => r.id = str s.rid)).length ≤ 1 := by
+    have := congrArg List.length (filter_rel rs srels s.rid hag)
+    simp only [List.length_map] at this
+    omega
+  rw [C03_sheet_part_last rs srels hag s (fun r hr => hok r (by rw [← getLast?_filter_unique _ _ huniq]; exact hr)),
+    getLast?_filter_unique _ _ hlen]
+
+/-- a duplicated relationship id (boundary package edge 15): the library reads the sheet from the LAST relationship's
+    part, the decoder's rule (`find?`) names the FIRST -/
+example :
+    let rs : List RelR := [⟨"rId1".toList, [], "worksheets/sheet1.xml".toList⟩, ⟨"rId1".toList, [], "worksheets/sheet2.xml".toList⟩]
+    let s : SheetR := ⟨"S".toList, "1".toList, "rId1".toList, none⟩
+    (sheetPart rs s).map str = some "xl/worksheets/sheet2.xml" ∧
+    ((rs.find? (·.id = s.rid)).map fun r => str (joinPaths "xl".toList (stripXl r.target))) = some "xl/worksheets/sheet1.xml" := by
+  decide +kernel
 
 /-- non-vacuity: the three targets of edge 14 and some more -/
 example : (["worksheets/sheet1.xml", "/xl/worksheets/sheet2.xml", "./worksheets/../worksheets/sheet3.xml", "../xl/s.xml",
@@ -392,14 +421,16 @@ def mergesOf (root : Node) : List Node := ((root.kid? "mergeCells").map (·.kids
 
 /-- **what is asked of one `<sheet>` element `se`** of the workbook part, given the shared-string items `sis`, the styles
     root `sroot` and the workbook's relationships `wrs` as the library read them:
-    its `r:id` names a relationship whose target is `targetOk` (`C03_sheet_paths`); the part of that name exists (`root`);
+    its `r:id` names EXACTLY ONE relationship `r` (the relationships with that id are `[r]`: unique, as OPC requires; with a
+    duplicate the library reads the last, the decoder the first: `C03_sheet_part_last`), whose target is `targetOk`
+    (`C03_sheet_paths`); the part of that name exists (`root`);
     its `<sheetData>` is `validSheetData`; the relationships part of the sheet is found under the reader's name for it
     exactly when the decoder finds it under the standard's name (PER FILE: `relsPartOf` vs `relsNameOf` on this path) and,
     when there, is `validRels`; the hyperlinks are `validHyperlinks`; every merged range is `MergeRefOk`; every cell's `s`,
     when present, is an unsigned decimal inside `cellXfs`. -/
 def SheetValid (p : Package) (sis : List Node) (sroot : Node) (wrs : List RelR) (se : Node) : Prop :=
   ∃ (r : RelR) (root : Node),
-    wrs.find? (·.id = (se.attr? "r:id".toList).getD []) = some r ∧ targetOk r.target = true ∧
+    wrs.filter (·.id = (se.attr? "r:id".toList).getD []) = [r] ∧ targetOk r.target = true ∧
     lookupOf p (joinPaths "xl".toList (stripXl r.target)) = some root ∧
     validSheetData sis (rowsOf root) = true ∧
     lookupOf p (relsPartOf (joinPaths "xl".toList (stripXl r.target))) =
@@ -448,11 +479,15 @@ theorem C03_book_sheet (cf : Umya.StyleCodec.Tok → Umya.StyleCodec.Tok) (p : P
     ∃ sb, readSheetB specTr (lookupOf p) made (sis.map (stringItem false)) wrs ⟨name, sid, rid, se.attr? "state".toList⟩ = some sb ∧
       viewR sb = viewS (specSheetOf p "xl/workbook.xml" se)
         (specSheetFacts cf p "xl/workbook.xml" (styleTable sroot) (sis.map rstText) se) := by
-  obtain ⟨r, root, hfind, htok, hroot, hdata, hrl, hrv, hhl, hmg, hst⟩ := hv
-  simp only [hr, Option.getD_some] at hfind
+  obtain ⟨r, root, hfilt, htok, hroot, hdata, hrl, hrv, hhl, hmg, hst⟩ := hv
+  simp only [hr, Option.getD_some] at hfilt
+  have hfind : wrs.find? (·.id = rid) = some r := by
+    rw [← List.head?_filter, hfilt]; rfl
   generalize hpath : joinPaths "xl".toList (stripXl r.target) = path at hroot hrl hrv hhl
   -- the part on both sides
   have hpart := C03_sheet_part wrs _ hag ⟨name, sid, rid, se.attr? "state".toList⟩
+    (by show (wrs.filter (·.id = rid)).length ≤ 1
+        rw [hfilt]; exact Nat.le_refl 1)
     (fun r' hr' => by
       have hr'' : wrs.find? (·.id = rid) = some r' := hr'
       rw [hfind] at hr''
@@ -460,8 +495,8 @@ theorem C03_book_sheet (cf : Umya.StyleCodec.Tok → Umya.StyleCodec.Tok) (p : P
       subst e
       exact htok)
   have hsp : sheetPart wrs ⟨name, sid, rid, se.attr? "state".toList⟩ = some path := by
-    unfold sheetPart
-    simp only [hfind, Option.map_some, hpath]
+    unfold sheetPart sheetRel
+    simp only [hfilt, List.getLast?_singleton, Option.map_some, hpath]
   rw [hsp] at hpart
   cases hs : (relsOf p "xl/workbook.xml").find? (fun r => r.id = str rid) with
   | none => rw [hs] at hpart; simp at hpart
@@ -500,7 +535,10 @@ theorem C03_book_sheet (cf : Umya.StyleCodec.Tok → Umya.StyleCodec.Tok) (p : P
       (cellNodes root) (fun c hc => cell_facts cf sroot hvs made hmade _ c (hst c hc))
     refine ⟨⟨⟨name, sid, rid, se.attr? "state".toList⟩, outs, sts, mrs, ls⟩, ?_, ?_⟩
     · unfold readSheetB
-      simp only [hsp, Option.bind_some, hroot, Option.map_some]
+      have hany : ((wrs.filter (·.id = rid)).any (fun r => (lookupOf p (joinPaths "xl".toList (stripXl r.target))).isNone)) = false := by
+        rw [hfilt]
+        simp only [List.any_cons, List.any_nil, Bool.or_false, hpath, hroot, Option.isNone_some]
+      simp only [hany, Bool.false_eq_true, if_false, hsp, Option.bind_some, hroot, Option.map_some]
       simp only [rowsOf, linksOf, mergesOf, cellNodes] at hrows hl1 hm1 hs1
       simp only [hrows, hl1, hm1, hs1]
     · simp only [viewR, viewS, specSheetOf, specSheetFacts, hr, Option.bind_some, hs, hroot', hsst, hn, Option.getD_some]
